@@ -1,12 +1,310 @@
 /-
-  CmdWire.lean — driver commands (stub; owned by the group that builds the corresponding model).
+  CmdWire.lean — driver commands for the wire-level circuit model (C04, C13).
+
+  circuit encoding (all in one line):
+    ne=<n> np=<n> nc=<n> nid=<n> nodes=<id>:<kind>:<gates>:<qregs>:<cregs>:<fixed>;…  wires=<reg>:<id>.<id>…;…
+    kind  ∈ W (wrapper; gates = class list, '.'-separated) | G (base gate; gates = one class) | MZ | CNOT | CZ | CCNOT | CCZ | MCR
+    gates ∈ I H P Pdg X Y Z ;  regs like e0 p3 c0 ;  '-' = empty list
+  edges  <reg>@<pos> ; pairs <edge>+<edge>
 -/
+import GraphiqModel.Model.EvoMoves
 import Driver.Proto
 namespace Graphiq.CmdWire
-open Graphiq Graphiq.Proto
+open Graphiq Graphiq.Proto Graphiq.Wire
+
+/-! ### parsing -/
+
+def parseG1 : String → Option G1
+  | "I" => some .I | "H" => some .H | "P" => some .P | "Pdg" => some .Pdg
+  | "X" => some .X | "Y" => some .Y | "Z" => some .Z
+  | _ => none
+
+def showG1 : G1 → String
+  | .I => "I" | .H => "H" | .P => "P" | .Pdg => "Pdg" | .X => "X" | .Y => "Y" | .Z => "Z"
+
+def parseReg (s : String) : Option Reg :=
+  match s.toList with
+  | 'e' :: rest => (String.ofList rest).toNat?.map (Reg.mk .e)
+  | 'p' :: rest => (String.ofList rest).toNat?.map (Reg.mk .p)
+  | 'c' :: rest => (String.ofList rest).toNat?.map (Reg.mk .c)
+  | _ => none
+
+def showReg (r : Reg) : String :=
+  (match r.ty with | .e => "e" | .p => "p" | .c => "c") ++ toString r.idx
+
+def dotList (s : String) : List String := if s = "" ∨ s = "-" then [] else splitChar '.' s
+
+def parseKind (k gates : String) : Option Kind :=
+  match k with
+  | "W" => some (.wrapper ((dotList gates).filterMap parseG1))
+  | "G" => (parseG1 gates).map Kind.base
+  | "MZ" => some .measZ | "CNOT" => some .cnot | "CZ" => some .cz
+  | "CCNOT" => some .ccnot | "CCZ" => some .ccz | "MCR" => some .mcr
+  | _ => none
+
+def showKind : Kind → String × String
+  | .wrapper gs => ("W", if gs.isEmpty then "-" else String.intercalate "." (gs.map showG1))
+  | .base g => ("G", showG1 g)
+  | .measZ => ("MZ", "-") | .cnot => ("CNOT", "-") | .cz => ("CZ", "-")
+  | .ccnot => ("CCNOT", "-") | .ccz => ("CCZ", "-") | .mcr => ("MCR", "-")
+
+def parseOpFields (kind gates q cr fixed : String) : Option Op := do
+  let k ← parseKind kind gates
+  pure ⟨k, (dotList q).filterMap parseReg, (dotList cr).filterMap String.toNat?, fixed = "1"⟩
+
+/-- `<kind>:<gates>:<q>:<c>:<fixed>` -/
+def parseOp (s : String) : Option Op :=
+  match splitChar ':' s with
+  | [kind, gates, q, cr, fixed] => parseOpFields kind gates q cr fixed
+  | _ => none
+
+def parseNode (s : String) : Option (Nat × Op) :=
+  match splitChar ':' s with
+  | [id, kind, gates, q, cr, fixed] => do
+    let n ← id.toNat?
+    let op ← parseOpFields kind gates q cr fixed
+    pure (n, op)
+  | _ => none
+
+def semiList (s : String) : List String := if s = "" ∨ s = "-" then [] else splitChar ';' s
+
+structure WireTab where
+  e : Array (List Nat)
+  p : Array (List Nat)
+  c : Array (List Nat)
+
+def WireTab.get (w : WireTab) (r : Reg) : List Nat :=
+  match r.ty with
+  | .e => w.e.getD r.idx []
+  | .p => w.p.getD r.idx []
+  | .c => w.c.getD r.idx []
+
+def lookupNode (a : Array (Option Op)) (n : Nat) : Option Op := a.getD n none
+
+/-- tabulate a circuit (closure depth 1; see the execution pitfall in CONTRIBUTING) -/
+def norm (c : Circuit) : Circuit :=
+  let nodes : Array (Option Op) := Array.ofFn (n := c.nid + 1) fun i => c.node i.val
+  let w : WireTab := ⟨Array.ofFn (n := c.ne) fun i => c.wire ⟨.e, i.val⟩,
+                      Array.ofFn (n := c.np) fun i => c.wire ⟨.p, i.val⟩,
+                      Array.ofFn (n := c.nc) fun i => c.wire ⟨.c, i.val⟩⟩
+  { c with node := lookupNode nodes, wire := w.get }
+
+def circuitOf (a : Args) : Option Circuit := do
+  let ne := getNat a "ne"
+  let np := getNat a "np"
+  let nc := getNat a "nc"
+  let nid := getNat a "nid"
+  let nodes ← (semiList (get a "nodes")).mapM parseNode
+  let wires ← (semiList (get a "wires")).mapM fun s =>
+    match splitChar ':' s with
+    | [r, ids] => (parseReg r).map fun rr => (rr, (dotList ids).filterMap String.toNat?)
+    | _ => none
+  let nodeF : Nat → Option Op := fun n => (nodes.find? fun x => x.1 = n).map (·.2)
+  let wireF : Reg → List Nat := fun r => ((wires.find? fun x => x.1 = r).map (·.2)).getD []
+  pure (norm ⟨ne, np, nc, nid, nodeF, wireF⟩)
+
+/-! ### printing -/
+
+def showNats' (l : List Nat) : String := if l.isEmpty then "-" else String.intercalate "." (l.map toString)
+
+def showOp (op : Op) : String :=
+  let (k, g) := showKind op.kind
+  let q := if op.q.isEmpty then "-" else String.intercalate "." (op.q.map showReg)
+  s!"{k}:{g}:{q}:{showNats' op.cr}:{b01 op.fixed}"
+
+def showCircuit (c : Circuit) : String :=
+  let nodes := c.nodeIds.filterMap fun n => (c.node n).map fun op => s!"{n}:{showOp op}"
+  let wires := c.regs.map fun r => s!"{showReg r}:{showNats' (c.wire r)}"
+  let ns := if nodes.isEmpty then "-" else String.intercalate ";" nodes
+  let ws := if wires.isEmpty then "-" else String.intercalate ";" wires
+  s!"ne={c.ne} np={c.np} nc={c.nc} nid={c.nid} nodes={ns} wires={ws}"
+
+def showEdge (e : Edge) : String := s!"{showReg e.r}@{e.pos}"
+
+def parseEdge (s : String) : Option Edge :=
+  match splitChar '@' s with
+  | [r, p] => do
+    let rr ← parseReg r
+    let pp ← p.toNat?
+    pure ⟨rr, pp⟩
+  | _ => none
+
+def parseChoice (s : String) : Option Choice :=
+  if s = "" ∨ s = "-" ∨ s = "none" then some .none
+  else match splitChar '+' s with
+    | [a, b] => do
+      let e1 ← parseEdge a
+      let e2 ← parseEdge b
+      pure (.pair e1 e2)
+    | [a] =>
+      match parseEdge a with
+      | some e => some (.edge e)
+      | none => a.toNat?.map Choice.node
+    | _ => none
+
+def parseTrans : String → Option Trans
+  | "add_emitter_one_qubit_op" => some .addEmitterOneQubitOp
+  | "add_photon_one_qubit_op" => some .addPhotonOneQubitOp
+  | "replace_photon_one_qubit_op" => some .replacePhotonOneQubitOp
+  | "replace_emitter_one_qubit_op" => some .replaceEmitterOneQubitOp
+  | "add_emitter_cnot" => some .addEmitterCnot
+  | "remove_op" => some .removeOp
+  | "add_measurement_cnot_and_reset" => some .addMeasurementCnotAndReset
+  | _ => none
+
+def commaList (l : List String) : String := if l.isEmpty then "-" else String.intercalate "," l
+
+def showErr (e : Err) : String := s!"err {e}"
+
+def showV : V → String
+  | .inp r => showReg r ++ "_in"
+  | .out r => showReg r ++ "_out"
+  | .op n => toString n
+
+/-- candidate list of the *first* random draw of a transformation, in the model's (canonical) order;
+    `kind` says what the entries are -/
+def candsOf (c : Circuit) : Trans → String × List String
+  | .addEmitterOneQubitOp =>
+    if c.emitterEdgeCands = [] then ("node", (c.replaceCands .e).map toString)
+    else ("edge", c.emitterEdgeCands.map showEdge)
+  | .addPhotonOneQubitOp =>
+    if c.photonEdgeCands = [] then ("node", (c.replaceCands .p).map toString)
+    else ("edge", c.photonEdgeCands.map showEdge)
+  | .replacePhotonOneQubitOp => ("node", (c.replaceCands .p).map toString)
+  | .replaceEmitterOneQubitOp => ("node", (c.replaceCands .e).map toString)
+  | .removeOp => ("node", c.removeCands.map toString)
+  | .addEmitterCnot => ("pair", c.cnotPairCands.map fun p => showEdge p.1 ++ "+" ++ showEdge p.2)
+  | .addMeasurementCnotAndReset => ("pair", c.mcrPairCands.map fun p => showEdge p.1 ++ "+" ++ showEdge p.2)
+
+def showFlat (c : Circuit) : String :=
+  let item : Item → String
+    | .g g => showG1 g
+    | .node k q cr =>
+      let qs := String.intercalate "." (q.map showReg)
+      s!"{(showKind k).1}({qs}|{showNats' cr})"
+  let wires := c.qregs.map fun r =>
+    let its := (c.flatWire r).map item
+    s!"{showReg r}:{if its.isEmpty then "-" else String.intercalate "." its}"
+  String.intercalate ";" wires
+
+def regList (s : String) : List Reg := (listOf s).filterMap parseReg
+
+def gateList (s : String) : List G1 := (dotList s).filterMap parseG1
+
+/-- `fg:<reg>:<gates>` `rf:<reg>:<gates>` `xf:<reg>` `cx:<c>:<t>` `em:<e>:<p>` `mcr:<e>:<p>` `ag:<p>:<gate>` -/
+def parseBuildOp (s : String) : Option BuildOp :=
+  match splitChar ':' s with
+  | ["fg", r, gs] => (parseReg r).map fun rr => .frontGate rr (gateList gs)
+  | ["rf", r, gs] => (parseReg r).map fun rr => .replaceFront rr (gateList gs)
+  | ["xf", r] => (parseReg r).map .removeFront
+  | ["cx", c, t] => do pure (.emitterCnot (← c.toNat?) (← t.toNat?))
+  | ["em", e, p] => do pure (.emission (← e.toNat?) (← p.toNat?))
+  | ["mcr", e, p] => do pure (.mcr (← e.toNat?) (← p.toNat?))
+  | ["ag", p, g] => do pure (.appendGate (← p.toNat?) (← parseG1 g))
+  | _ => none
 
 def dispatch (cmd : String) (a : Args) : Option String :=
   match cmd with
+  | "wire.check" =>
+    match circuitOf a with
+    | none => some "err parse"
+    | some c => some s!"ok wf={b01 c.wfB} acyclic={b01 c.acyclicB} emit={b01 c.emitCB} n={c.nodeIds.length}"
+  | "wire.echo" =>
+    match circuitOf a with
+    | none => some "err parse"
+    | some c => some s!"ok {showCircuit c}"
+  | "wire.flat" =>
+    match circuitOf a with
+    | none => some "err parse"
+    | some c => some s!"ok flat={showFlat c}"
+  | "wire.incompat" =>
+    match circuitOf a, parseEdge (get a "e") with
+    | some c, some e =>
+      let inf := c.incompatInfo e
+      let es := (c.edgesOf .e ++ c.edgesOf .p ++ c.edgesOf .c).filter (c.isIncompatible e inf)
+      some s!"ok closed={b01 inf.closed} anc={commaList (inf.anc.map showV)} desc={commaList (inf.desc.map showV)} edges={commaList (es.map showEdge)}"
+    | _, _ => some "err parse"
+  | "evo.ops" =>
+    some s!"ok n={oneQubitOps.length} ops={commaList (oneQubitOps.map fun gs => String.intercalate "." (gs.map showG1))}"
+  | "evo.cands" =>
+    match circuitOf a, parseTrans (get a "t") with
+    | some c, some t =>
+      let (k, l) := candsOf c t
+      some s!"ok kind={k} n={l.length} cands={commaList l}"
+    | _, _ => some "err parse"
+  | "evo.step" =>
+    match circuitOf a, parseTrans (get a "t"), parseChoice (get a "ch") with
+    | some c, some t, some ch =>
+      match c.step ⟨t, ch, getNat a "g"⟩ with
+      | some c' => some s!"ok {showCircuit c'}"
+      | none => some "err notallowed"
+    | _, _, _ => some "err parse"
+  | "evo.ea" =>
+    match getEmissionAssignment (getNat a "np") (getNat a "ne") (natsOf ',' (get a "draws")) with
+    | some ea => some s!"ok ea={showNats "," ea}"
+    | none => some "err draws"
+  | "evo.init" =>
+    match initialization (natsOf ',' (get a "ea")) (natsOf ',' (get a "ma")) with
+    | .ok c => some s!"ok {showCircuit c}"
+    | .error e => some (showErr e)
+  | "trs.build" =>
+    match (listOf (get a "ops")).mapM parseBuildOp with
+    | none => some "err parse"
+    | some ops =>
+      match solverCircuit (getNat a "ne") (getNat a "np") ops with
+      | some c => some s!"ok {showCircuit c}"
+      | none =>
+        -- say where the discipline was violated
+        let rec go (s : BuildSt) (k : Nat) : List BuildOp → String
+          | [] => s!"err incomplete emitted={showNats "," s.emitted}"
+          | op :: rest => match s.step op with
+            | some s' => go s' (k + 1) rest
+            | none => s!"err refused at={k}"
+        some (go ⟨Circuit.empty (getNat a "ne") (getNat a "np") 1, []⟩ 0 ops)
+  | "wire.add" =>
+    match circuitOf a, parseOp (get a "op") with
+    | some c, some op =>
+      match c.add op with
+      | .ok c' => some s!"ok {showCircuit c'}"
+      | .error e => some (showErr e)
+    | _, _ => some "err parse"
+  | "wire.insert" =>
+    match circuitOf a, parseOp (get a "op") with
+    | some c, some op =>
+      match c.insertAtE op ((listOf (get a "edges")).filterMap parseEdge) with
+      | .ok c' => some s!"ok {showCircuit c'}"
+      | .error e => some (showErr e)
+    | _, _ => some "err parse"
+  | "wire.remove" =>
+    match circuitOf a with
+    | some c => some s!"ok {showCircuit (c.removeOp (getNat a "n"))}"
+    | none => some "err parse"
+  | "wire.replace" =>
+    match circuitOf a, parseOp (get a "op") with
+    | some c, some op =>
+      match c.replaceOpE (getNat a "n") op with
+      | .ok c' => some s!"ok {showCircuit c'}"
+      | .error e => some (showErr e)
+    | _, _ => some "err parse"
+  | "wire.unwrap" =>
+    match circuitOf a with
+    | some c => some s!"ok {showCircuit (c.unwrapNodes (natsOf ',' (get a "order")))}"
+    | none => some "err parse"
+  | "wire.rmid" =>
+    match circuitOf a with
+    | some c => some s!"ok {showCircuit (c.removeIdentity (natsOf ',' (get a "order")))}"
+    | none => some "err parse"
+  | "wire.group" =>
+    match circuitOf a with
+    | some c => some s!"ok {showCircuit (c.groupOneQubitGates (regList (get a "order")))}"
+    | none => some "err parse"
+  | "wire.assign" =>
+    match circuitOf a with
+    | some c =>
+      match c.assignNoise (natsOf ',' (get a "seq")) with
+      | .ok c' => some s!"ok {showCircuit c'}"
+      | .error e => some (showErr e)
+    | none => some "err parse"
   | _ => none
 
 end Graphiq.CmdWire
